@@ -47,7 +47,9 @@ type exprCase struct {
 	msgs map[string][]string // checker -> messages (emission order)
 }
 
-var claimCheckers = []string{"sloppyLen", "badCond", "offBy1", "dupSubExpr"}
+var claimCheckers = []string{"sloppyLen", "badCond", "offBy1", "dupSubExpr", "dupArg"}
+
+const lintHeader = "package p\n\nimport (\n\t\"bytes\"\n\t\"strings\"\n)\n\nvar _ = bytes.Equal\nvar _ = strings.Index\n"
 
 func genClaimExpr(g *exprgen.G, r interface{ Intn(int) int }) string {
 	pick := func(xs ...string) string { return xs[r.Intn(len(xs))] }
@@ -154,6 +156,27 @@ func genClaimExpr(g *exprgen.G, r interface{ Intn(int) int }) string {
 			}
 			e = wrap(x) + " " + op + " " + wrap(y)
 		}
+	case n < 97: // dupArg
+		sx := pick("s", "t", "fs()", "s + t", `"ab"`, "string(bs)", "s[:]")
+		sy := sx
+		if r.Intn(5) == 0 {
+			sy = pick("s", "t", `"a"`)
+		}
+		switch r.Intn(4) {
+		case 0:
+			e = "strings.Contains(" + sx + ", " + sy + ")"
+		case 1:
+			e = "strings.Index(" + sx + ", " + sy + ") >= a"
+		case 2:
+			e = "strings.Compare(" + sx + ", " + sy + ") == 0"
+		default:
+			bx := pick("bs", "fbs()", "[]byte(s)", "bs[:]")
+			by := bx
+			if r.Intn(5) == 0 {
+				by = pick("bs", "[]byte(t)")
+			}
+			e = "bytes.Equal(" + bx + ", " + by + ")"
+		}
 	default:
 		e = g.BoolExpr()
 	}
@@ -181,7 +204,7 @@ func runExprClaims(meta *common.Meta, seed int64, outDir string, n int) {
 			continue
 		}
 		seen[e] = true
-		probe := "package p\n" + exprgen.LintPreamble + "func f(" + exprgen.Params + ") bool { return " + e + " }\n"
+		probe := lintHeader + exprgen.LintPreamble + "func f(" + exprgen.Params + ") bool { return " + e + " }\n"
 		if _, err := exprgen.Load("p.go", probe); err != nil {
 			rejected++
 			if rejected > 20*n {
@@ -193,7 +216,7 @@ func runExprClaims(meta *common.Meta, seed int64, outDir string, n int) {
 	}
 	meta.Distribution["expr_rejected_by_typecheck"] = rejected
 	var src strings.Builder
-	src.WriteString("package p\n" + exprgen.LintPreamble)
+	src.WriteString(lintHeader + exprgen.LintPreamble)
 	for _, c := range cases {
 		fmt.Fprintf(&src, "func %s(%s) bool { return %s }\n", c.fn, exprgen.Params, c.src)
 	}
@@ -260,14 +283,15 @@ func runExprClaims(meta *common.Meta, seed int64, outDir string, n int) {
 	hdr := "From GC Require Import Base Model_Expr Model_BoolSimp Model_Claims.\n" +
 		"(* (expression, diagnostics of sloppyLen / badCond / offBy1 / dupSubExpr inside it; blanks removed) *)\n" +
 		"Definition norm (l : list string) := map strip_spaces l.\n" +
-		"Definition case_ok (c : expr * (list string * list string * list string * list string)) : bool :=\n" +
-		"  let '(e, (sl, bc, ob, ds)) := c in\n" +
+		"Definition case_ok (c : expr * (list string * list string * list string * list string * list string)) : bool :=\n" +
+		"  let '(e, (sl, bc, ob, ds, da)) := c in\n" +
 		"  is_bool_ty (typeof e) &&\n" +
 		"  list_eqb String.eqb (norm (walk_claims sloppy_len_msgs e)) sl &&\n" +
 		"  list_eqb String.eqb (norm (walk_claims bad_cond_msgs e)) bc &&\n" +
 		"  list_eqb String.eqb (norm (walk_claims off_by1_msgs e)) ob &&\n" +
-		"  list_eqb String.eqb (norm (walk_claims dup_sub_expr_msgs e)) ds.\n" +
-		"Definition cases : list (expr * (list string * list string * list string * list string)) := [\n"
+		"  list_eqb String.eqb (norm (walk_claims dup_sub_expr_msgs e)) ds &&\n" +
+		"  list_eqb String.eqb (norm (walk_claims dup_arg_msgs e)) da.\n" +
+		"Definition cases : list (expr * (list string * list string * list string * list string * list string)) := [\n"
 	const shards = 4
 	bodies := make([][]string, shards)
 	idx := make([][]string, shards)
@@ -286,9 +310,9 @@ func runExprClaims(meta *common.Meta, seed int64, outDir string, n int) {
 			continue
 		}
 		sh := i % shards
-		bodies[sh] = append(bodies[sh], fmt.Sprintf("(%s, (%s, %s, %s, %s))", c.term,
+		bodies[sh] = append(bodies[sh], fmt.Sprintf("(%s, (%s, %s, %s, %s, %s))", c.term,
 			coqfmt.StrList(strip(c.msgs["sloppyLen"])), coqfmt.StrList(strip(c.msgs["badCond"])),
-			coqfmt.StrList(strip(c.msgs["offBy1"])), coqfmt.StrList(strip(c.msgs["dupSubExpr"]))))
+			coqfmt.StrList(strip(c.msgs["offBy1"])), coqfmt.StrList(strip(c.msgs["dupSubExpr"])), coqfmt.StrList(strip(c.msgs["dupArg"]))))
 		idx[sh] = append(idx[sh], fmt.Sprintf("%s => %q", c.src, c.msgs))
 		if len(c.msgs) > 0 {
 			nflag++
@@ -334,6 +358,10 @@ func runExprClaims(meta *common.Meta, seed int64, outDir string, n int) {
 			b := node.(*ast.BinaryExpr)
 			dc.Orig = "fmt.Sprint(" + l.Text(b.X) + ") == fmt.Sprint(" + l.Text(b.Y) + ")"
 			dc.Expect = "true"
+		case "dupArg":
+			ce := node.(*ast.CallExpr)
+			dc.Orig = "fmt.Sprint(" + l.Text(ce.Args[0]) + ") == fmt.Sprint(" + l.Text(ce.Args[1]) + ")"
+			dc.Expect = "true"
 		}
 		dc.Inputs = exprgen.Grid(rg, text, 120)
 		dcs = append(dcs, dc)
@@ -373,6 +401,10 @@ func findFlagged(l *exprgen.Linted, root ast.Expr, pos token.Pos, checker, msg s
 		switch checker {
 		case "offBy1":
 			if _, ok := e.(*ast.IndexExpr); ok {
+				found = e
+			}
+		case "dupArg":
+			if ce, ok := e.(*ast.CallExpr); ok && len(ce.Args) == 2 {
 				found = e
 			}
 		default:
